@@ -18,7 +18,7 @@ M = ['_current_byte', '_bit_offset']
 EXTRACTS = [
     X('br_inc', BR, r'auto operator\+\+\(\) -> bit_range& \{', within=W_BR, count=1, members=M, rules=[('R2.ret', r'return \*this;', 'return;', True)]),
     X('br_dec', BR, r'auto operator--\(\) -> bit_range& \{', within=W_BR, count=1, members=M,
-      rules=[('R11.adv', r'\bbit_advance\(', 'br_bit_advance(self, ', True), ('R2.ret', r'return \*this;', 'return;', True)]),
+      rules=[('R11.adv', r'\bbit_advance\(', 'br_bit_advance(self, ', False), ('R2.ret', r'return \*this;', 'return;', True)]),
     X('br_bit_advance', BR, r'void bit_advance\(difference_type num_bits\) \{', within=W_BR, count=1, members=M),
     X('br_bit_distance_to', BR, r'auto bit_distance_to\(bit_range const& b\) const -> difference_type\s*\{', within=W_BR, count=1,
       # R15: CBMC 6.11 reports a spurious signed-overflow on every pointer subtraction (checked on raw pointer bit patterns);
@@ -184,7 +184,7 @@ int main(int argc, char** argv){ vr::parse(argc, argv);
 '''
 
 
-def units(prop, sizes=((1, 'quick'), (3, 'quick'), (4, 'quick'), (7, 'quick'), (8, 'thorough'), (13, 'quick'), (24, 'thorough'), (6, 'thorough'), (2, 'thorough'))):
+def units(prop, sizes=((1, 'quick'), (3, 'quick'), (4, 'quick'), (7, 'quick'), (8, 'quick'), (13, 'quick'), (16, 'quick'), (24, 'thorough'), (6, 'thorough'), (2, 'thorough'))):
     out = []
     f = fns()
     order = ['br_bit_advance', 'br_inc', 'br_dec', 'br_bit_distance_to', 'it_advance', 'it_distance_to', 'at_c_bitref']
